@@ -71,7 +71,207 @@ fn load_cas(slot: usize) -> Body {
     })
 }
 
+pub const CELL_LETTERS: i64 = 10;
+
+pub fn gen_cell_cases(k1: usize, k2: usize) -> i64 {
+    CELL_LETTERS.pow((k1 + k2) as u32)
+}
+
+fn decode(mut idx: i64, k: usize) -> Vec<u8> {
+    let mut v = vec![];
+    for _ in 0..k {
+        v.push((idx % CELL_LETTERS) as u8);
+        idx /= CELL_LETTERS;
+    }
+    v
+}
+
+/// Generated family on one AtomicRc: masters x, y, z live in rc slots 0..3 (never consumed), the
+/// cell holds x written one round earlier. Each thread runs its letters under one guard.
+fn gen_concurrent(p: &Params) -> Program {
+    let k1 = p.get("k1", 1) as usize;
+    let k2 = p.get("k2", 2) as usize;
+    let case = p.get("case", 0);
+    let p1 = decode(case % CELL_LETTERS.pow(k1 as u32), k1);
+    let p2 = decode(case / CELL_LETTERS.pow(k1 as u32), k2);
+    let run = |prog: Vec<u8>| {
+        body(move |c, w| {
+            let g = c.pin();
+            let cell = &w.roots[0];
+            let mut last = crate::world::TS { s: circ::Snapshot::null(), gid: g.gid };
+            fn finish<'a>(c: &Ctx, r: Result<Rc<crate::world::Node>, (Rc<crate::world::Node>, crate::world::TS<'a>)>) -> Option<crate::world::TS<'a>> {
+                match r {
+                    Ok(old) => {
+                        c.drop_rc(old);
+                        None
+                    }
+                    Err((des, cur)) => {
+                        c.drop_rc(des);
+                        Some(cur)
+                    }
+                }
+            }
+            for op in prog {
+                match op {
+                    0 => last = c.load(cell, &g),
+                    1 => c.store(cell, c.clone_rc(w.rc[0].get()), &g),
+                    2 => c.store(cell, c.clone_rc(w.rc[1].get()), &g),
+                    3 => c.store(cell, Rc::null(), &g),
+                    4 => {
+                        let old = c.swap(cell, c.clone_rc(w.rc[1].get()));
+                        c.drop_rc(old);
+                    }
+                    5 => {
+                        if let Some(cur) = finish(c, c.cas(cell, last, c.clone_rc(w.rc[1].get()), &g, false)) {
+                            last = cur;
+                        }
+                    }
+                    6 => {
+                        let exp = crate::world::TS { s: w.rc[0].get().snapshot(&g.g), gid: g.gid };
+                        if let Some(cur) = finish(c, c.cas(cell, exp, c.clone_rc(w.rc[2].get()), &g, false)) {
+                            last = cur;
+                        }
+                    }
+                    7 => {
+                        if let Err((_, cur)) = c.cas_tag(cell, last, 1, &g) {
+                            last = cur;
+                        }
+                    }
+                    8 => {
+                        circ::verif::try_advance();
+                    }
+                    _ => {
+                        let des = c.clone_rc(w.rc[0].get()).with_tag(1);
+                        if let Some(cur) = finish(c, c.cas(cell, last, des, &g, false)) {
+                            last = cur;
+                        }
+                    }
+                }
+            }
+            c.unpin(g);
+        })
+    };
+    Program {
+        e0: p.get("e0", 0) as usize,
+        classes: p.get("classes", crate::sched::RC as i64) as u8,
+        setup: Some(body(|c, w| {
+            let x = c.new_node(1);
+            let g = c.pin();
+            c.store(&w.roots[0], c.clone_rc(&x), &g);
+            c.unpin(g);
+            w.rc[0].put(x);
+            w.rc[1].put(c.new_node(2));
+            w.rc[2].put(c.new_node(3));
+            c.round();
+        })),
+        threads: vec![run(p1), run(p2)],
+        finish: Some(finish_lin("C08", 1, false)),
+        claim: Some("C08"),
+        ..Default::default()
+    }
+}
+
+/// The same on one AtomicWeak; expected values come from the cell, from a Snapshot loaded from an
+/// AtomicRc written at another epoch, and stored values include a Weak that carries that stamp.
+fn gen_wconcurrent(p: &Params) -> Program {
+    let k1 = p.get("k1", 1) as usize;
+    let k2 = p.get("k2", 2) as usize;
+    let case = p.get("case", 0);
+    let p1 = decode(case % CELL_LETTERS.pow(k1 as u32), k1);
+    let p2 = decode(case / CELL_LETTERS.pow(k1 as u32), k2);
+    let run = |prog: Vec<u8>| {
+        body(move |c, w| {
+            let g = c.pin();
+            let cell = &w.wroots[0];
+            let mut last = crate::world::TWS { s: circ::WeakSnapshot::null(), gid: g.gid };
+            fn finish<'a>(c: &Ctx, r: Result<Weak<crate::world::Node>, (Weak<crate::world::Node>, crate::world::TWS<'a>)>) -> Option<crate::world::TWS<'a>> {
+                match r {
+                    Ok(old) => {
+                        c.wdrop(old);
+                        None
+                    }
+                    Err((des, cur)) => {
+                        c.wdrop(des);
+                        Some(cur)
+                    }
+                }
+            }
+            for op in prog {
+                match op {
+                    0 => last = c.wload(cell, &g),
+                    1 => c.wstore(cell, c.wclone(w.weak[0].get()), &g),
+                    2 => c.wstore(cell, c.wclone(w.weak[1].get()), &g),
+                    3 => c.wstore(cell, Weak::null(), &g),
+                    4 => {
+                        let old = c.wswap(cell, c.wclone(w.weak[1].get()));
+                        c.wdrop(old);
+                    }
+                    5 => {
+                        if let Some(cur) = finish(c, c.wcas(cell, last, c.wclone(w.weak[1].get()), &g, false)) {
+                            last = cur;
+                        }
+                    }
+                    6 => {
+                        let s = c.load(&w.roots[1], &g);
+                        let exp = c.sdowngrade(s);
+                        if let Some(cur) = finish(c, c.wcas(cell, exp, c.wclone(w.weak[2].get()), &g, false)) {
+                            last = cur;
+                        }
+                    }
+                    7 => {
+                        if let Err((_, cur)) = c.wcas_tag(cell, last, 1, &g) {
+                            last = cur;
+                        }
+                    }
+                    8 => {
+                        let s = c.load(&w.roots[1], &g);
+                        let stamped = c.ws_counted(c.sdowngrade(s));
+                        c.wstore(cell, stamped, &g);
+                    }
+                    _ => {
+                        let des = c.wclone(w.weak[0].get()).with_tag(1);
+                        if let Some(cur) = finish(c, c.wcas(cell, last, des, &g, false)) {
+                            last = cur;
+                        }
+                    }
+                }
+            }
+            c.unpin(g);
+        })
+    };
+    Program {
+        e0: p.get("e0", 0) as usize,
+        classes: p.get("classes", crate::sched::RC as i64) as u8,
+        setup: Some(body(|c, w| {
+            let x = c.new_node(1);
+            let y = c.new_node(2);
+            let z = c.new_node(3);
+            let g = c.pin();
+            c.wstore(&w.wroots[0], c.downgrade(&x), &g);
+            c.unpin(g);
+            c.round();
+            let g = c.pin();
+            c.store(&w.roots[1], c.clone_rc(&x), &g);
+            c.unpin(g);
+            w.weak[0].put(c.downgrade(&x));
+            w.weak[1].put(c.downgrade(&y));
+            w.weak[2].put(c.downgrade(&z));
+            w.rc[0].put(x);
+            w.rc[1].put(y);
+            w.rc[2].put(z);
+            c.round();
+        })),
+        threads: vec![run(p1), run(p2)],
+        finish: Some(finish_lin("C09", 4, true)),
+        claim: Some("C09"),
+        ..Default::default()
+    }
+}
+
 fn concurrent(p: &Params) -> Program {
+    if p.get("gen", 0) != 0 {
+        return gen_concurrent(p);
+    }
     let prog = p.get("prog", 0);
     let threads: Vec<Body> = match prog {
         0 => vec![
@@ -160,6 +360,9 @@ fn concurrent(p: &Params) -> Program {
 }
 
 fn wconcurrent(p: &Params) -> Program {
+    if p.get("gen", 0) != 0 {
+        return gen_wconcurrent(p);
+    }
     let prog = p.get("prog", 0);
     let wload_cas = |slot: usize| {
         body(move |c, w| {
